@@ -251,7 +251,13 @@ func concurrent(run *ev.Run) {
 		desc := "concurrent: " + sc.name + ": " + strings.Join(names, " || ")
 		st := vsched.Explore(vsched.Config{Name: sc.name, Bound: bound, Stall: 120 * time.Second, MaxExec: 200000}, concBody(sc))
 		if st.Infra != "" {
-			ev.Fatal("%s: %s", sc.name, st.Infra)
+			if st.StallReproduced {
+				run.Violation("call-never-returns-under-schedule", fmt.Sprintf("%s: the same schedule stalled three times: %s", sc.name, st.Infra), map[string]interface{}{"scenario": sc.name, "schedule": st.StallSchedule})
+			} else {
+				run.Set("stall_not_reproduced", fmt.Sprintf("%s: %s", sc.name, st.Infra))
+				run.Capped("an execution stalled once and did not stall again when its schedule was replayed twice (load or nondeterminism outside the scheduler)")
+			}
+			break
 		}
 		totalExec += st.Executions
 		totalDec += st.Decisions
